@@ -10,6 +10,9 @@ use crate::{
     type_checker::type_checker_context::{TypeCheckerContext, WithType},
 };
 
+/// Largest number of elements a range may expand to.
+const MAX_RANGE_LENGTH: i64 = 10_000_000;
+
 #[derive(Debug, Serialize, Clone)]
 pub struct NumericRange {}
 
@@ -25,6 +28,16 @@ impl RoocFunction for NumericRange {
                 let from = from.as_integer_cast(context, fn_context)?;
                 let to = to.as_integer_cast(context, fn_context)?;
                 let to_inclusive = to_inclusive.as_boolean(context, fn_context)?;
+                //the range is materialised, a huge one would exhaust memory and abort
+                //the process instead of failing with an error
+                let length = (to as i128) - (from as i128) + i128::from(to_inclusive);
+                if length > MAX_RANGE_LENGTH as i128 {
+                    return Err(TransformError::TooLarge {
+                        message: format!("the range {}..{} has too many elements", from, to),
+                        got: length.min(i64::MAX as i128) as i64,
+                        max: MAX_RANGE_LENGTH,
+                    });
+                }
                 if from >= 0 && to >= 0 {
                     let from = from as usize;
                     let to = to as usize;
